@@ -27,6 +27,12 @@ def gen_table(rng, *, n_cols: Optional[int] = None, n_rows: Optional[int] = None
             h = rng.choice(["Unit Price", "Qty (each)", "9 Lives", "a.b-c", "e-mail@x", "Total $", "col#2"]) + str(len(heads))
         if h not in heads:
             heads.append(h)
+            if cleaning_headers and len(heads) < nc and rng.random() < 0.3:
+                # a second, distinct header that is the first one's cleaned spelling ("unit cost" / "unit_cost"), on either side of it
+                from stingray.workbook import name_cleaner
+                twin = name_cleaner(h)
+                if twin != h and twin not in heads:
+                    heads.insert(rng.choice([len(heads) - 1, len(heads)]), twin)
 
     def cell() -> str:
         if fixed_safe:
